@@ -25,17 +25,36 @@ RULES = {
 }
 
 
-def all_b(v):
-    """Resolve every undetermined choice to its 'else' side: regularisers inactive, not converged."""
+def eval_cond(e, leaf):
+    """Truth value of an undetermined condition when every comparison leaf has the truth value `leaf`."""
+    if isinstance(e, Unk):
+        return eval_cond(e.expr, leaf)
+    if isinstance(e, bool):
+        return e
+    if isinstance(e, tuple) and e:
+        if e[0] == 'not':
+            return not eval_cond(e[1], leaf)
+        if e[0] == 'and':
+            return eval_cond(e[1], leaf) and eval_cond(e[2], leaf)
+        if e[0] == 'or':
+            return eval_cond(e[1], leaf) or eval_cond(e[2], leaf)
+    return leaf
+
+
+def resolve_choices(v, leaf):
+    """Resolve every guarded choice under 'all comparison tests are `leaf`'."""
     if isinstance(v, Choice):
-        return all_b(v.b)
+        return resolve_choices(v.a if eval_cond(v.cond, leaf) else v.b, leaf)
     return v
+
+
+def all_b(v):
+    """The regular branch: no test holds (regularisers inactive, not converged)."""
+    return resolve_choices(v, False)
 
 
 def all_a(v):
-    if isinstance(v, Choice):
-        return all_a(v.a)
-    return v
+    return resolve_choices(v, True)
 
 
 def make(repo, tiny_zero=True):
@@ -90,7 +109,7 @@ def run(ctx):
     guard_ok, gfact = False, {}
     if isinstance(r, Choice):
         cmps = [norm_cmp(c) for c in cmp_leaves(r.cond)]
-        conv_value = all_b(r.a)
+        conv_value = all_b(r.a if eval_cond(r.cond, True) else r.b)
         # expected three tests
         d1, d2 = e1 - e0, e2 - e1
         sss_expected = 1 / d2 - 1 / d1
